@@ -4,6 +4,39 @@
 #pragma once
 namespace vs
 {
+// The real thing, not raise(): a hardware fault at an instruction of this thread. Not instrumented — in the sanitizer
+// flavour UBSan would otherwise report the deliberate null store / division before the CPU does and end the child with
+// its own exit code (a false `process_did_not_die_from_the_original_signal`, seen in the first thorough pass).
+#if defined(__GNUC__)
+__attribute__((noinline, no_sanitize("undefined"), no_sanitize_address))
+#endif
+inline void real_fault(int sig)
+{
+  switch (sig)
+  {
+  case SIGSEGV:
+  {
+    volatile int* p = nullptr;
+    *p = 1;
+    break;
+  }
+  case SIGABRT:
+    ::abort();
+  case SIGFPE:
+  {
+    volatile int zero = 0;
+    volatile int r = 7 / zero;
+    (void)r;
+    break;
+  }
+  case SIGILL:
+    __builtin_trap(); // ud2
+  default:
+    ::raise(sig);
+    break;
+  }
+}
+
 template <class FO>
 void VM<FO>::terminal(int tid, Op const& op)
 {
@@ -69,29 +102,7 @@ void VM<FO>::terminal(int tid, Op const& op)
   }
   else
   {
-    switch (sig)
-    {
-    case SIGSEGV:
-    {
-      volatile int* p = nullptr;
-      *p = 1;
-      break;
-    }
-    case SIGABRT:
-      ::abort();
-    case SIGFPE:
-    {
-      volatile int zero = 0;
-      volatile int r = 7 / zero;
-      (void)r;
-      break;
-    }
-    case SIGILL:
-      __builtin_trap(); // ud2
-    default:
-      ::raise(sig);
-      break;
-    }
+    real_fault(sig);
   }
   // a handled signal never returns control here (the process dies or exits)
   write_pre_record("survived\n");
